@@ -3,7 +3,7 @@
   answers or returns 'fail', never another error", for the UNCONDITIONAL procedure `ctfTRu` (Algorithm 2).
 
   The parts: SIMPLIFY (Y0.Lemmas.CtfTrSimplify), line 2 (Y0.Lemmas.CtfTrLine2), Algorithm 4 (Y0.Lemmas.CtfTrSigma).
-  Here: what an accepted input guarantees for each of them, and the composition `ctfTRu_no_internal_error_partial`.
+  Here: what an accepted input guarantees for each of them, and the composition `ctfTRu_total_of_class`.
 -/
 import Y0.Lemmas.CtfTrSimplify
 import Y0.Lemmas.CtfTrLine2
@@ -45,34 +45,50 @@ theorem validateDomain_facts (target : MG Name) (d : Domain) (h : validateDomain
 theorem isProb_of_exprVarNames (q : Expr) (v : Name) (h : v ∈ exprVarNames q) : Tian.isProb q = true := by
   cases q <;> simp_all [exprVarNames, Tian.isProb]
 
+theorem ite_error_ok {c : Prop} [Decidable c] {err : Err} {y : Except Err Unit} {u : Unit}
+    (h : (if c then .error err else y) = .ok u) : ¬ c ∧ y = .ok u := by
+  split at h
+  · cases h
+  · exact ⟨‹_›, h⟩
+
 /-- what an accepted unconditional input guarantees (the part the algorithms rely on) -/
 theorem validateU_facts (target : MG Name) (ds : List Domain) (e : Event) (h : validateU target ds e = .ok ()) :
     target.nodes ≠ [] ∧ target.isAcyclic = true ∧ (∀ p ∈ e, p.1.name ∈ target.nodes) ∧
     (∀ d ∈ ds, seteq' target.nodes (regular d.graph) = true) ∧ (∀ d ∈ ds, validateDomain target d = .ok ()) := by
-  unfold validateU at h
-  split at h
-  · cases h
-  · unfold validateCommon vErr at h
-    repeat' split at h
-    all_goals try cases h
-    rename_i h1 h2 h3 h4 h5 h6 h7 h8 h9 h10 h11
-    refine ⟨by simpa using h1, by simpa using h8, ?_, ?_, validateDomains_mem target ds h⟩
-    · intro p hp
-      have : ¬ (e.map (·.1)).any (fun v => decide (v.name ∉ target.nodes)) = true := h10
-      simp only [List.any_eq_true, not_exists, not_and, List.mem_map] at this
-      have := this p.1 ⟨p, hp, rfl⟩
-      simpa using this
-    · intro d hd
-      have : ¬ ds.any (fun d => !seteq' target.nodes (regular d.graph)) = true := h9
-      simp only [List.any_eq_true, not_exists, not_and] at this
-      simpa using this d hd
+  unfold validateU vErr at h
+  obtain ⟨_, h⟩ := ite_error_ok h
+  unfold validateCommon vErr at h
+  obtain ⟨h1, h⟩ := ite_error_ok h
+  obtain ⟨_, h⟩ := ite_error_ok h
+  obtain ⟨_, h⟩ := ite_error_ok h
+  obtain ⟨_, h⟩ := ite_error_ok h
+  obtain ⟨_, h⟩ := ite_error_ok h
+  obtain ⟨_, h⟩ := ite_error_ok h
+  obtain ⟨_, h⟩ := ite_error_ok h
+  obtain ⟨h8, h⟩ := ite_error_ok h
+  obtain ⟨h9, h⟩ := ite_error_ok h
+  obtain ⟨h10, h⟩ := ite_error_ok h
+  obtain ⟨_, h⟩ := ite_error_ok h
+  refine ⟨?_, ?_, ?_, ?_, validateDomains_mem target ds h⟩
+  · intro h0; rw [h0] at h1; exact h1 rfl
+  · cases hac : target.isAcyclic with
+    | true => rfl
+    | false => rw [hac] at h8; exact absurd rfl h8
+  · intro p hp
+    simp only [List.any_eq_true, not_exists, not_and, List.mem_map, decide_eq_true_eq, not_not] at h10
+    exact h10 p.1 ⟨p, hp, rfl⟩
+  · intro d hd
+    simp only [List.any_eq_true, not_exists, not_and, Bool.not_eq_eq_eq_not, Bool.not_true,
+      Bool.not_eq_false] at h9
+    exact h9 d hd
 
 /-! ### the hypotheses on the event and on the domain graphs that the validator does NOT check -/
 
-/-- the event variables are unstarred `Variable`s / `CounterfactualVariable`s (no `Intervention`, no value mark on the
-variable itself) with at most one subscript on their own name -/
+/-- the event variables are what `_event_from_counterfactuals` produces: unstarred `Variable`s /
+`CounterfactualVariable`s (no `Intervention`, no value mark left on the variable itself), and the subscripts of each are
+a duplicate-free list (the model of a `frozenset`) -/
 def EventVarsPlain (e : Event) : Prop :=
-  ∀ p ∈ e, p.1.star = none ∧ p.1.isIv = false ∧ (p.1.ivs.filter (fun i => i.name == p.1.name)).length ≤ 1
+  ∀ p ∈ e, p.1.star = none ∧ p.1.isIv = false ∧ p.1.ivs.Nodup
 
 /-- the selection diagrams agree with the target graph on the bidirected edges between variables that carry no policy,
 and their selection nodes carry no bidirected edge -/
@@ -115,12 +131,13 @@ For an input accepted by the procedure's own validator, on graphs built by `from
 answer or FAIL provided
 * the event is outside the class on which SIMPLIFY raises (`SimplifyRisk`: a self-intervened `Y_y` together with a
   valueless variable named `Y`; implied by the complement of the known class `reflexive ∧ has_none`),
-* `EventVarsPlain`: no event variable is an `Intervention` or carries a value mark of its own, none has two
-  subscripts on its own name (inputs the validator accepts and on which SIMPLIFY / line 2 raise),
+* `EventVarsPlain`: no event variable is an `Intervention` or carries a value mark of its own (guaranteed by the
+  public entry point, which builds the event with `_event_from_counterfactuals`), subscript lists are duplicate free
+  (the representation invariant of a `frozenset`),
 * `DomainsAgree`: every selection diagram keeps the bidirected edges of the target graph between policy-free
   variables and has no bidirected edge at a selection node (the validator compares a domain graph with the target
   only when it is the target domain itself; Algorithm 4 raises `ValueError` / `KeyError` otherwise). -/
-theorem ctfTRu_no_internal_error_risk (target : MG Name) (ds : List Domain) (e : Event)
+theorem ctfTRu_total_of_risk (target : MG Name) (ds : List Domain) (e : Event)
     (hv : validateU target ds e = .ok ()) (hwf : target.WF) (hds : ∀ d ∈ ds, d.graph.WF)
     (hrisk : SimplifyRisk e = false) (hplain : EventVarsPlain e) (hdom : DomainsAgree target ds) :
     ∀ err, ctfTRu target ds e ≠ .error err := by
@@ -134,21 +151,21 @@ theorem ctfTRu_no_internal_error_risk (target : MG Name) (ds : List Domain) (e :
   unfold ctfTRu ctfTRuCore
   rw [hv]
   simp only [bind, Except.bind]
-  obtain ⟨o, hs⟩ := simplify_no_error_outside_risk target hwf e hnodes
+  obtain ⟨o, hs⟩ := simplify_total_of_risk target hwf e hnodes
     (fun p hp => by simp [validEventVar, (hplain p hp).1]) (fun p hp => (hplain p hp).2.2) hrisk
   rw [hs]
   cases o with
   | none => exact ⟨_, rfl⟩
   | some ev =>
-    simp only
+    dsimp only
     have hev : EventOK target ev := by
       intro p hp
       obtain ⟨⟨q, hq, hqn⟩, hk⟩ := simplify_output target e ev
         (fun p hp => ⟨(hplain p hp).1, (hplain p hp).2.1⟩) hs p hp
       exact ⟨by rw [← hqn]; exact hnodes q hq, hk⟩
-    obtain ⟨anc, factors, hl2, hfac⟩ := line2_total target hwf hloop ev hev
+    obtain ⟨anc, factors, hl2, hfac⟩ := line2_ok target hwf hloop ev hev
     rw [hl2]
-    simp only
+    dsimp only
     split
     · exact ⟨_, rfl⟩
     · obtain ⟨r, hr⟩ := transportFactors_total ds factors (by
@@ -171,10 +188,10 @@ theorem ctfTRu_no_internal_error_risk (target : MG Name) (ds : List Domain) (e :
       | some qs => exact ⟨_, rfl⟩
 
 /-- the same with the harness's class `reflexive ∧ has_none` (`crash:simplify-typeerror`) -/
-theorem ctfTRu_no_internal_error_partial (target : MG Name) (ds : List Domain) (e : Event)
+theorem ctfTRu_total_of_class (target : MG Name) (ds : List Domain) (e : Event)
     (hv : validateU target ds e = .ok ()) (hwf : target.WF) (hds : ∀ d ∈ ds, d.graph.WF)
     (hcls : CrashClassU e = false) (hplain : EventVarsPlain e) (hdom : DomainsAgree target ds) :
     ∀ err, ctfTRu target ds e ≠ .error err :=
-  ctfTRu_no_internal_error_risk target ds e hv hwf hds (simplifyRisk_false_of_crashClass e hcls) hplain hdom
+  ctfTRu_total_of_risk target ds e hv hwf hds (simplifyRisk_false_of_crashClass e hcls) hplain hdom
 
 end Y0.CtfTr
